@@ -243,6 +243,9 @@ class ndarray:
         self._k = kind
         self._st = tuple(strides) if strides is not None else _cstrides(self.shape)
         self._o = offset
+        # plain attributes (not properties): CrossHair evaluates hasattr() outside tracing, and dims may be symbolic
+        self.ndim = len(self.shape)
+        self.size = _prod(self.shape)
 
     # ---- basic attributes
     @property
@@ -254,14 +257,6 @@ class ndarray:
                     m = len(x)
             return dtype("U", m)
         return dtype(self._k)
-
-    @property
-    def ndim(self):
-        return len(self.shape)
-
-    @property
-    def size(self):
-        return _prod(self.shape)
 
     @property
     def T(self):
